@@ -23,8 +23,9 @@ func cmdGen(args []string) {
 	n := fs.Int("n", 100, "number of behaviours")
 	seed := fs.Int64("seed", 1, "seed")
 	out := fs.String("out", "behaviours.ndjson", "output")
+	odd := fs.Bool("odd", false, "also generate inputs outside the protocol's domain (judged for survival only)")
 	fs.Parse(args)
-	g := &gen{rng: rand.New(rand.NewSource(*seed))}
+	g := &gen{rng: rand.New(rand.NewSource(*seed)), odd: *odd}
 	f, err := os.Create(*out)
 	if err != nil {
 		die("%v", err)
@@ -86,11 +87,37 @@ func cmdGen(args []string) {
 	fmt.Printf("generated %d behaviours\n", *n)
 }
 
-var genFns = map[string]func(*gen) M{}
+var genFns = map[string]func(*gen) M{"C02": (*gen).behC02}
+
+// behC02: client-chosen bytes that the server quotes back in its messages:
+// unknown message types (every interesting byte value, at idle, in a batch and
+// inside COPY), unknown Describe / Close targets.
+func (g *gen) behC02() M {
+	steps := []any{startup("u")}
+	n := 1 + g.rng.Intn(5)
+	for i := 0; i < n; i++ {
+		tyb := []int{0, 0, 1, 9, 10, 13, 27, 34, 37, 92, 127, 128, 159, 173, 255, 70, 97}[g.rng.Intn(17)]
+		u := M{"t": "U", "tyb": tyb}
+		switch g.rng.Intn(4) {
+		case 0:
+			steps = append(steps, send(u), send(M{"t": "S"}))
+		case 1:
+			steps = append(steps, send(M{"t": "P", "name": "", "q": g.trivialQ(), "noids": 0}), send(u), send(M{"t": "S"}))
+		case 2:
+			g.id++
+			st := M{"id": g.id, "cols": g.cols(1), "oids": []any{}, "prog": []any{M{"op": "copyin", "fmt": 0}, M{"op": "copyread", "onerr": "ret"}, M{"op": "complete", "tag": "COPY"}, M{"op": "ret", "r": "nil"}}}
+			steps = append(steps, send(M{"t": "Q", "q": M{"id": g.id, "parse": "ok", "stmts": []any{st}}}), send(u), send(M{"t": "c"}), send(M{"t": "S"}))
+		default:
+			steps = append(steps, send(M{"t": g.pick("D", "C"), "kind": g.pick("z", "x", "hi"), "name": g.pick("", "a")}), send(M{"t": "S"}))
+		}
+	}
+	return M{"cfg": baseCfg(), "steps": steps}
+}
 
 type gen struct {
 	rng *rand.Rand
 	id  int
+	odd bool // also inputs outside the protocol's domain
 }
 
 func (g *gen) pick(xs ...string) string { return xs[g.rng.Intn(len(xs))] }
@@ -245,9 +272,7 @@ func (g *gen) name() string { return g.pick("", "a", "b", "s1") }
 func (g *gen) behC06() M {
 	steps := []any{startup("u")}
 	n := 1 + g.rng.Intn(30)
-	// C06 does not judge what Close does to a name (that is C07): a closed
-	// name is not referred to again until it is defined anew.
-	closedS, closedP := map[string]bool{}, map[string]bool{}
+	// a closed name is unknown: referring to it afterwards is an error like any other
 	for i := 0; i < n; i++ {
 		var m M
 		switch g.rng.Intn(14) {
@@ -272,38 +297,28 @@ func (g *gen) behC06() M {
 		case 12:
 			m = M{"t": "Q", "q": g.script(2, 3)}
 		case 13:
-			switch g.rng.Intn(3) {
+			switch g.rng.Intn(4) {
 			case 0:
 				m = M{"t": "U"}
 			case 1:
 				m = M{"t": "Big", "ty": g.pick("Q", "P", "B", "E", "D"), "over": 1 + g.rng.Intn(100)}
+			case 2:
+				// define, close, refer: the reference is to an unknown name
+				nm := g.name()
+				if g.chance(0.5) {
+					steps = append(steps, send(M{"t": "P", "name": nm, "q": g.trivialQ(), "noids": 0}), send(M{"t": "B", "portal": nm, "stmt": nm, "pfmt": []any{}, "params": []any{}, "rfmt": []any{}}),
+						send(M{"t": "C", "kind": "P", "name": nm}))
+					m = M{"t": g.pick("E", "D"), "portal": nm, "max": 0, "kind": "P", "name": nm}
+				} else {
+					steps = append(steps, send(M{"t": "P", "name": nm, "q": g.trivialQ(), "noids": 0}), send(M{"t": "C", "kind": "S", "name": nm}))
+					if g.chance(0.5) {
+						m = M{"t": "B", "portal": nm, "stmt": nm, "pfmt": []any{}, "params": []any{}, "rfmt": []any{}}
+					} else {
+						m = M{"t": "D", "kind": "S", "name": nm}
+					}
+				}
 			default:
 				m = M{"t": g.pick("d", "c", "f")}
-			}
-		}
-		switch run.S(m, "t") {
-		case "B":
-			if closedS[run.S(m, "stmt")] || closedP[run.S(m, "portal")] {
-				continue
-			}
-		case "D":
-			if (run.S(m, "kind") == "S" && closedS[run.S(m, "name")]) || (run.S(m, "kind") == "P" && closedP[run.S(m, "name")]) {
-				continue
-			}
-		case "E":
-			if closedP[run.S(m, "portal")] {
-				continue
-			}
-		case "P":
-			if closedS[run.S(m, "name")] {
-				continue
-			}
-		case "C":
-			// once closed a name stays unused: whether it was removed is not C06's question
-			if run.S(m, "kind") == "S" {
-				closedS[run.S(m, "name")] = true
-			} else {
-				closedP[run.S(m, "name")] = true
 			}
 		}
 		st := send(m)
@@ -387,6 +402,15 @@ func (g *gen) codeList(n int) []any {
 	if n < 2 {
 		return []any{g.rng.Intn(2)}
 	}
+	if g.odd && n >= 3 && g.chance(0.3) {
+		// more than one code but fewer than columns / parameters: outside the protocol (0, 1 or n codes);
+		// what the library makes of it is not prescribed, only that it survives
+		out := make([]any, 2+g.rng.Intn(n-2))
+		for i := range out {
+			out[i] = g.rng.Intn(2)
+		}
+		return out
+	}
 	out := make([]any, n)
 	for i := range out {
 		out[i] = g.rng.Intn(2)
@@ -410,7 +434,11 @@ func (g *gen) behC08() M {
 		oids := []any{}
 		if typed {
 			for i := 0; i < np; i++ {
-				oids = append(oids, c08Types[g.rng.Intn(len(c08Types))])
+				if g.chance(0.3) {
+					oids = append(oids, 0) // declared with an unspecified type
+				} else {
+					oids = append(oids, c08Types[g.rng.Intn(len(c08Types))])
+				}
 			}
 		}
 		nc := 1 + g.rng.Intn(4)
@@ -434,7 +462,7 @@ func (g *gen) behC08() M {
 		st := M{"id": id, "cols": cols, "oids": oids, "prog": prog}
 		name := g.name()
 		portal := g.name()
-		steps = append(steps, send(M{"t": "P", "name": name, "q": M{"id": id, "parse": "ok", "stmts": []any{st}}, "noids": g.rng.Intn(3)}))
+		steps = append(steps, send(M{"t": "P", "name": name, "q": M{"id": id, "parse": "ok", "stmts": []any{st}}, "noids": g.rng.Intn(5)}))
 		if g.chance(0.5) {
 			steps = append(steps, send(M{"t": "D", "kind": "S", "name": name}))
 		}
@@ -921,7 +949,8 @@ func (g *gen) behC20() M {
 	if !beyond {
 		g.id++
 		st := M{"id": g.id, "cols": []any{}, "oids": []any{}, "toks": toks, "prog": []any{M{"op": "complete", "tag": "OK"}, M{"op": "ret", "r": "nil"}}}
-		steps = append(steps, startup("u"), send(M{"t": "P", "name": "", "q": M{"id": g.id, "parse": "ok", "stmts": []any{st}}, "noids": 0}),
+		// the frontend may prespecify any number of parameter types: Describe still announces what ParseParameters reported
+		steps = append(steps, startup("u"), send(M{"t": "P", "name": "", "q": M{"id": g.id, "parse": "ok", "stmts": []any{st}}, "noids": []int{0, 0, 1, 2, 3, 7}[g.rng.Intn(6)]}),
 			send(M{"t": "D", "kind": "S", "name": ""}), send(M{"t": "S"}))
 	}
 	cfg := baseCfg()
